@@ -163,6 +163,10 @@ def _value(rng, maxlen=6):
     r = rng.random()
     if r < 0.12:
         return b''
+    if r < 0.2:
+        # values that URI schemes treat specially: runs of periods (the NDN URI scheme of ndn-cxx pads all-period
+        # components with three more periods; this library documents that it does not), of one reserved character
+        return rng.choice([b'.', b'-', b'_', b'~', b'%', b'=', b'/', b'+', b' ']) * rng.choice([1, 2, 3, 3, 4, 5, 6])
     n = rng.choice([1, 1, 2, 3, maxlen])
     return bytes(rng.choice(SPECIAL) if rng.random() < 0.6 else rng.randrange(256) for _ in range(n))
 
